@@ -1,11 +1,266 @@
-/- C09 — executable model (stub; filled in by the property's owner). -/
-import Mahotas.Model.Border
-import Mahotas.Model.DType
+/-
+C09 — executable model of the `out=` convention.
+
+(a) `getOutput` — the decision function of `mahotas/internal.py::_get_output`, tests in the order
+    of the code (dtype, shape, C-contiguity);
+(b) `hitmissOut` — `hitmiss`'s own hand-written validation (`morph.py`), as repaired (contiguity);
+(c) buffer-flow programs — the Python wrappers that pass one buffer through several passes
+    (`erode`/`dilate`, `open`, `close`, `cerode`, `subm`, `tophat_open/close`, and the Gaussian
+    ping-pong of the pinned tree), written in a tiny shallow embedding: a heap of buffers with a
+    descriptor (dtype, shape, contiguity) and a *symbolic* content, explicit state passing, and a
+    result that is either `ok value state` or `raise reason state`.
+
+No Mathlib here (linked into the driver).
+-/
+import Mahotas.Model.Basic
 namespace Mahotas.C09
 open Mahotas
 
+/-- what `_get_output` looks at in an array -/
+structure Desc where
+  dtype   : Nat          -- canonical dtype code (kind, itemsize)
+  shape   : List Nat
+  ccontig : Bool         -- `flags.contiguous` (= C-contiguous)
+deriving DecidableEq, Repr
+
+inductive Reject
+  | dtype | shape | contig
+deriving DecidableEq, Repr
+
+def Reject.name : Reject → String
+  | .dtype => "dtype" | .shape => "shape" | .contig => "contig"
+
+/-- outcome of `_get_output(array, out, fname, dtype)` -/
+inductive Decision
+  | fresh (d : Desc)        -- `np.empty(array.shape, dtype)`
+  | useOut                  -- `return out`
+  | reject (r : Reject)     -- `raise ValueError`
+deriving DecidableEq, Repr
+
+/-- the three tests of `_get_output` in source order (kept as data so that the translator's
+    extraction of the *current* source can be compared with it) -/
+def getOutputChecks : List String := ["dtype", "shape", "contiguous"]
+
+/-- transliteration of `_get_output` (the deprecated `output=` alias is resolved by the caller) -/
+def getOutput (array : Desc) (out : Option Desc) (dtype : Option Nat) : Decision :=
+  let dt := match dtype with
+    | none => array.dtype
+    | some d => d
+  match out with
+  | none => .fresh { dtype := dt, shape := array.shape, ccontig := true }
+  | some o =>
+    if o.dtype ≠ dt then .reject .dtype
+    else if o.shape ≠ array.shape then .reject .shape
+    else if !o.ccontig then .reject .contig
+    else .useOut
+
+/-! ### `hitmiss` validates by hand -/
+
+inductive HMDecision
+  | fresh | useOut | useView | valueError | typeError
+deriving DecidableEq, Repr
+
+def dtBool : Nat := 98001     -- 'b', 1 byte
+def dtU8 : Nat := 117001      -- 'u', 1 byte
+
+/-- `hitmiss`: `input` here is the array *after* the bool→uint8 view -/
+def hitmissOut (input : Desc) (out : Option Desc) : HMDecision :=
+  match out with
+  | none => .fresh
+  | some o =>
+    if o.shape ≠ input.shape then .valueError
+    else if !o.ccontig then .valueError
+    else if o.dtype ≠ input.dtype then
+      (if o.dtype = dtBool ∧ input.dtype = dtU8 then .useView else .typeError)
+    else .useOut
+
+/-! ### buffer-flow programs -/
+
+inductive Op
+  | erode | dilate | maximum | subm | gauss1d | kernel
+deriving DecidableEq, Repr
+
+/-- symbolic content of a buffer -/
+inductive Val
+  | inp   : Nat → Val               -- logical content of input buffer n at call time
+  | old   : Val                     -- whatever the user's `out` buffer held before the call
+  | undef : Val                     -- `np.empty`
+  | ap    : Op → Val → Val → Val
+deriving DecidableEq, Repr
+
+structure Buf where
+  desc : Desc
+  val  : Val
+deriving DecidableEq, Repr
+
+/-- the heap: buffer identity = index -/
+structure St where
+  heap : List Buf
+deriving DecidableEq, Repr
+
+def St.val (s : St) (b : Nat) : Val := match s.heap[b]? with | some x => x.val | none => .undef
+def St.desc (s : St) (b : Nat) : Desc :=
+  match s.heap[b]? with | some x => x.desc | none => { dtype := 0, shape := [], ccontig := false }
+
+/-- result of running a wrapper: a value and the heap, or an exception and the heap -/
+inductive R (α : Type)
+  | ok (a : α) (s : St)
+  | raise (r : Reject) (s : St)
+
+def R.bind {α β} : R α → (α → St → R β) → R β
+  | .ok a s, f => f a s
+  | .raise r s, _ => .raise r s
+
+/-- allocate a fresh C-contiguous buffer -/
+def alloc (d : Desc) (v : Val) (s : St) : R Nat :=
+  .ok s.heap.length { heap := s.heap ++ [{ desc := { d with ccontig := true }, val := v }] }
+
+/-- a kernel (or numpy) writes the whole buffer `b` -/
+def write (b : Nat) (v : Val) (s : St) : St :=
+  { heap := s.heap.modify b (fun x => { x with val := v }) }
+
+/-- `_get_output(array, out, …, dtype)` on buffers -/
+def getOut (array : Nat) (out : Option Nat) (dtype : Option Nat) (s : St) : R Nat :=
+  match getOutput (s.desc array) (out.map s.desc) dtype with
+  | .fresh d => alloc d .undef s
+  | .useOut => (match out with | some o => .ok o s | none => alloc (s.desc array) .undef s)
+  | .reject r => .raise r s
+
+/-- `erode(A, Bc, out)`: `output = _get_output(A, out, 'erode'); return _morph.erode(A, Bc, output)` -/
+def kernel1 (op : Op) (a bc : Nat) (out : Option Nat) (dtype : Option Nat) (s : St) : R Nat :=
+  (getOut a out dtype s).bind fun o s => .ok o (write o (.ap op (s.val a) (s.val bc)) s)
+
+def erodeP (a bc : Nat) (out : Option Nat) : St → R Nat := kernel1 .erode a bc out none
+def dilateP (a bc : Nat) (out : Option Nat) : St → R Nat := kernel1 .dilate a bc out none
+
+/-- `open`: `eroded = erode(f, Bc, out=out); return dilate(eroded.copy(), Bc, out=eroded)` -/
+def openP (f bc : Nat) (out : Option Nat) (s : St) : R Nat :=
+  (erodeP f bc out s).bind fun eroded s =>
+  (alloc (s.desc eroded) (s.val eroded) s).bind fun tmp s =>
+  dilateP tmp bc (some eroded) s
+
+/-- `close`: `dilated = dilate(f, Bc, out=out); return erode(dilated.copy(), Bc, out=dilated)` -/
+def closeP (f bc : Nat) (out : Option Nat) (s : St) : R Nat :=
+  (dilateP f bc out s).bind fun dilated s =>
+  (alloc (s.desc dilated) (s.val dilated) s).bind fun tmp s =>
+  erodeP tmp bc (some dilated) s
+
+/-- `cerode`: `f = np.maximum(f, g); out = _get_output(f, out); f = _morph.erode(f, Bc, out);
+    return np.maximum(f, g, out=f)` -/
+def cerodeP (f g bc : Nat) (out : Option Nat) (s : St) : R Nat :=
+  (alloc (s.desc f) (.ap .maximum (s.val f) (s.val g)) s).bind fun f1 s =>
+  (getOut f1 out none s).bind fun o s =>
+  let s := write o (.ap .erode (s.val f1) (s.val bc)) s
+  .ok o (write o (.ap .maximum (s.val o) (s.val g)) s)
+
+/-- `subm`: `out = _get_output(a, out); if out is not a: out[:] = a; return _morph.subm(out, b)` -/
+def submP (a b : Nat) (out : Option Nat) (s : St) : R Nat :=
+  (getOut a out none s).bind fun o s =>
+  let s := if o ≠ a then write o (s.val a) s else s
+  .ok o (write o (.ap .subm (s.val o) (s.val b)) s)
+
+/-- `tophat_close`: `out = _get_output(f, out); fc = close(f, Bc); return subm(fc, f, out=out)` -/
+def tophatCloseP (f bc : Nat) (out : Option Nat) (s : St) : R Nat :=
+  (getOut f out none s).bind fun o s =>
+  (closeP f bc none s).bind fun fc s =>
+  submP fc f (some o) s
+
+/-- `tophat_open`: `out = _get_output(f, out); fo = open(f, Bc); return subm(f, fo, out=out)` -/
+def tophatOpenP (f bc : Nat) (out : Option Nat) (s : St) : R Nat :=
+  (getOut f out none s).bind fun o s =>
+  (openP f bc none s).bind fun fo s =>
+  submP f fo (some o) s
+
+/-- one pass of the Gaussian ping-pong on the **pinned** tree: `gaussian_filter1d(output, …, noutput)`
+    forwards its 7th positional argument to the deprecated `output=`, which `convolve1d` never
+    sees: every pass allocates a fresh buffer -/
+def gauss1dPinnedP (src bc : Nat) (_out : Option Nat) (s : St) : R Nat :=
+  kernel1 .gauss1d src bc none none s
+
+/-- `gaussian_filter` on the pinned tree for `n` axes: `output = _get_output(array, out);
+    output[...] = array; noutput = None; for axis: noutput = g1d(output, …, noutput);
+    output, noutput = noutput, output; return output` -/
+def gaussPinnedLoop (bc : Nat) : Nat → Nat → Option Nat → St → R Nat
+  | 0, output, _, s => .ok output s
+  | n + 1, output, noutput, s =>
+    (gauss1dPinnedP output bc noutput s).bind fun no s => gaussPinnedLoop bc n no (some output) s
+
+def gaussPinnedP (a bc : Nat) (out : Option Nat) (naxes : Nat) (s : St) : R Nat :=
+  (getOut a out none s).bind fun o s =>
+  gaussPinnedLoop bc naxes o none (write o (s.val a) s)
+
+/-- one pass with `out` honoured (the convention): `convolve1d(array, w, axis, out=out)` -/
+def gauss1dP (src bc : Nat) (out : Option Nat) (s : St) : R Nat := kernel1 .gauss1d src bc out none s
+
+/-- a Gaussian ping-pong that satisfies the convention: the passes alternate between the user's
+    buffer and one scratch buffer; when the last pass landed in the scratch buffer it is copied back -/
+def gaussLoop (bc : Nat) : Nat → Nat → Option Nat → St → R Nat
+  | 0, output, _, s => .ok output s
+  | n + 1, output, noutput, s =>
+    (gauss1dP output bc noutput s).bind fun no s => gaussLoop bc n no (some output) s
+
+def gaussRepairedP (a bc : Nat) (out : Option Nat) (naxes : Nat) (s : St) : R Nat :=
+  (getOut a out none s).bind fun o s =>
+  (gaussLoop bc naxes o none (write o (s.val a) s)).bind fun r s =>
+  if r ≠ o then .ok o (write o (s.val r) s) else .ok o s
+
+/-! ### initial states -/
+
+/-- heap at call time: inputs `0 … k-1` (content `inp i`), then the user's `out` (content `old`) -/
+def initSt (inputs : List Desc) (out : Option Desc) : St :=
+  { heap := (inputs.zipIdx.map fun (d, i) => { desc := d, val := .inp i }) ++
+            (match out with | some o => [{ desc := o, val := .old }] | none => []) }
+
+def outId (inputs : List Desc) (out : Option Desc) : Option Nat := out.map fun _ => inputs.length
+
+/-! ### driver -/
+
+partial def showVal : Val → String
+  | .inp n => s!"i{n}"
+  | .old => "old"
+  | .undef => "undef"
+  | .ap op a b => s!"{reprStr op}({showVal a};{showVal b})".replace "Mahotas.C09.Op." ""
+
+def descOf (a : Args) (pfx : String) : Desc :=
+  { dtype := a.nat (pfx ++ "dt"), shape := a.nats (pfx ++ "shape"), ccontig := a.nat (pfx ++ "contig") == 1 }
+
+def showR (inputs : List Desc) (out : Option Desc) (r : R Nat) : String :=
+  let oid := outId inputs out
+  let outv := fun (s : St) => match oid with | some o => showVal (s.val o) | none => "-"
+  match r with
+  | .ok b s => s!"res=ok ret={if some b = oid then "out" else "fresh"} val={showVal (s.val b)} outval={outv s}"
+  | .raise r s => s!"res=raise why={r.name} outval={outv s}"
+
 def handle (a : Args) : String :=
+  let arr := descOf a "a"
+  let out : Option Desc := if a.has "odt" then some (descOf a "o") else none
   match a.str "kind" with
+  | "getout" =>
+    let dt : Option Nat := if a.has "dt" then some (a.nat "dt") else none
+    match getOutput arr out dt with
+    | .fresh d => s!"dec=fresh dt={d.dtype} shape={showNats d.shape}"
+    | .useOut => "dec=out"
+    | .reject r => s!"dec=reject why={r.name}"
+  | "hitmiss" =>
+    match hitmissOut arr out with
+    | .fresh => "dec=fresh" | .useOut => "dec=out" | .useView => "dec=view"
+    | .valueError => "dec=ValueError" | .typeError => "dec=TypeError"
+  | "flow" =>
+    let fn := a.str "fn"
+    let two := [arr, arr]          -- f, Bc (the element's descriptor is never inspected)
+    let three := [arr, arr, arr]   -- f, g, Bc
+    let dt : Option Nat := if a.has "dt" then some (a.nat "dt") else none
+    match fn with
+    | "kernel" => showR two out (kernel1 .kernel 0 1 (outId two out) dt (initSt two out))
+    | "open" => showR two out (openP 0 1 (outId two out) (initSt two out))
+    | "close" => showR two out (closeP 0 1 (outId two out) (initSt two out))
+    | "cerode" => showR three out (cerodeP 0 1 2 (outId three out) (initSt three out))
+    | "subm" => showR two out (submP 0 1 (outId two out) (initSt two out))
+    | "tophat_close" => showR two out (tophatCloseP 0 1 (outId two out) (initSt two out))
+    | "tophat_open" => showR two out (tophatOpenP 0 1 (outId two out) (initSt two out))
+    | "gaussian_pinned" => showR two out (gaussPinnedP 0 1 (outId two out) arr.shape.length (initSt two out))
+    | "gaussian" => showR two out (gaussRepairedP 0 1 (outId two out) arr.shape.length (initSt two out))
+    | f => s!"error=unknown-flow-{f}"
   | k => s!"error=unknown-kind-{k}"
 
 end Mahotas.C09
